@@ -31,6 +31,7 @@ type childOut struct {
 	PanicMsg  string
 	PanicSite string // top repository frame of the panicking goroutine
 	Harness   string
+	UILog     string // what fan2go printed (tail)
 }
 
 var l2Counter int
@@ -173,6 +174,12 @@ func runChild(spec *childSpec, timeout time.Duration) *childOut {
 			}
 		}
 		f.Close()
+	}
+	if b, err := os.ReadFile(filepath.Join(spec.OutDir, "ui.log")); err == nil {
+		if len(b) > 1<<15 {
+			b = b[len(b)-(1<<15):]
+		}
+		out.UILog = string(b)
 	}
 	if out.Timeout {
 		out.Harness = "child watchdog expired"
